@@ -939,8 +939,19 @@ def main():
                     c.hist("model-unsup")
                     continue
                 fp = cs["fpdisc"]
+                # numpy scalars among the sampled leaves (TruncatedNormal samples are numpy.float64): plain Python on
+                # *those* values does not raise on a division by zero (inf / nan + RuntimeWarning), and the result can
+                # be finite again downstream (an unselected multiplexer option, min/max).  The model's floats are
+                # Python floats (ZeroDivisionError), so a model-side ZeroDivisionError is outside the model here; the
+                # oracle (Scenic vs CPython on the same numpy values) above still applies.
+                npz_py = bool(s.get("np_leaves")) and mpy == ("err", "ZeroDivisionError")
+                npz_cap = bool(s.get("np_leaves")) and mcap == ("err", "ZeroDivisionError")
+                if npz_py or npz_cap:
+                    c.hist("numpy-div0-skip")
                 # spec model vs Python
-                if pv_ok:
+                if npz_py:
+                    pass
+                elif pv_ok:
                     try:
                         pyv = dec(s["py"])
                         if mpy[0] != "ok" or not close(mpy[1], pyv):
@@ -954,7 +965,9 @@ def main():
                 elif mpy[0] == "ok":
                     c.violation("correspondence", "eval_py yields a value where Python raises", dict(case=cs, sample=s, model=parts[0]))
                 # capture model vs Scenic
-                if iv_ok:
+                if npz_cap:
+                    pass
+                elif iv_ok:
                     try:
                         iv = dec(s["impl"])
                         if mcap[0] != "ok" or not close(mcap[1], iv):
